@@ -130,10 +130,17 @@ type samReaderModel struct {
 	c    *core.Ctx
 }
 
+// samOpenErrEOF selects which failure NewReader reports when it is told to fail: a header-less stream (false) or an
+// empty one (true, io.EOF - which the record loop treats as the normal end of input).
+var samOpenErrEOF bool
+
 func installSamReader(c *core.Ctx, ev *eval.Evaluator, recs []samRec, failNew bool, failReadAt int) {
 	installBiogo(ev)
 	ev.Extern[biogo+".NewReader"] = func(ev *eval.Evaluator, pos token.Pos, recv eval.Value, args []eval.Value) eval.Value {
 		if failNew {
+			if samOpenErrEOF { // a zero-byte stream: the library reports io.EOF from NewReader
+				return eval.Tuple{eval.Nil{}, eval.ErrVal{Msg: eval.SSym("io.EOF")}}
+			}
 			return eval.Tuple{eval.Nil{}, eval.ErrVal{Msg: eval.S("sam: invalid header")}}
 		}
 		m := &samReaderModel{recs: recs, c: c}
